@@ -95,3 +95,118 @@ Definition check_ctl_case (c : list (list (N * cache_entry) * list (N * N)) * li
           (if check_live live shadow (snd c) then [] else [n]) ++ go rest (n + 1)
       end in
   go (fst c) 0.
+
+(* ------------------------------------------------------------------------------------------------ *)
+(* Controller glue (C10_Ctl_Model.v): per operation, the tracker calls the implementation made are   *)
+(* compared with the calls of the model, the implementation's cache dump with the model's cache, the  *)
+(* kernel shadow with the model's kernel map, and both with the table of the live cache.              *)
+(* ------------------------------------------------------------------------------------------------ *)
+From Dae Require Import C10_Ctl_Model.
+
+Definition answer_eqb (a b : answer) : bool := Bool.eqb (fst a) (fst b) && (snd a =? snd b).
+
+Fixpoint list_eqb {A} (eqb : A -> A -> bool) (l1 l2 : list A) : bool :=
+  match l1, l2 with
+  | [], [] => true
+  | x :: r1, y :: r2 => eqb x y && list_eqb eqb r1 r2
+  | _, _ => false
+  end.
+
+Definition entry_eqb (a b : cache_entry) : bool :=
+  (e_bitmap a =? e_bitmap b) && list_eqb answer_eqb (e_answers a) (e_answers b).
+
+Definition cache_op_eqb (a b : cache_op) : bool :=
+  match a, b with
+  | CInsert o e, CInsert o' e' => (o =? o') && entry_eqb e e'
+  | CRemove o, CRemove o' => o =? o'
+  | _, _ => false
+  end.
+
+Definition rules_of (l : list (N * N)) : N -> N :=
+  fun f => match find (fun kv => fst kv =? f) l with Some kv => snd kv | None => 0 end.
+
+(* implementation dump of one cache value: entry, RouteOwnerKey (numbered), deadline, lastAccess *)
+Definition live_dump := list (ckey * (cache_entry * (N * (N * N)))).
+
+Record ctl_obs := {
+  co_op : ctl_op;
+  co_calls : list cache_op;       (* the calls seen by the observer during the operation *)
+  co_live : live_dump;            (* the controller's cache after the operation *)
+  co_shadow : list (N * N)        (* the kernel shadow map after the operation *)
+}.
+
+Definition dump_of_cache (c : cache) : live_dump :=
+  map (fun ke => (fst ke, (ce_e (snd ke), (ce_owner (snd ke), (ce_deadline (snd ke), ce_last (snd ke)))))) c.
+
+Definition dump_item_eqb (a b : ckey * (cache_entry * (N * (N * N)))) : bool :=
+  ckey_eqb (fst a) (fst b) && entry_eqb (fst (snd a)) (fst (snd b))
+  && (fst (snd (snd a)) =? fst (snd (snd b)))
+  && (fst (snd (snd (snd a))) =? fst (snd (snd (snd b))))
+  && (snd (snd (snd (snd a))) =? snd (snd (snd (snd b)))).
+
+(* the LRU oracle is legitimate: everything the size pass evicted was accessed no later than anything
+   that survived it *)
+Definition lru_choice_ok (cfg : config) (before : cache) (o : ctl_op) (after : cache) : bool :=
+  match o with
+  | OJanitor now _ =>
+      let w1 := fst (janitor_time_pass cfg before now) in
+      let evicted := filter (fun ke => match c_load after (fst ke) with None => true | Some _ => false end) w1 in
+      forallb (fun v => forallb (fun s => ce_last (snd v) <=? ce_last (snd s)) after) evicted
+  | _ => true
+  end.
+
+(* error codes (step, code): 1 impl<>model tracker calls   2 impl<>spec (shadow vs table of the impl's live cache)
+   3 model<>spec   4 impl<>model cache contents   5 impl's LRU victims are not least recently used
+   6 impl<>model kernel map *)
+Fixpoint check_ctl_steps (cfg : config) (steps : list ctl_obs) (univ : list N) (st : ctl) (n : N) : list (N * N) :=
+  match steps with
+  | [] => []
+  | s :: rest =>
+      let ef := ctl_effect cfg st (co_op s) in
+      let st' := ctl_step cfg st (co_op s) in
+      let e1 := if same_set cache_op_eqb (snd (ef_work ef)) (co_calls s) then [] else [(n, 1)] in
+      let ilive := map (fun d => (key_id (fst d), fst (snd d))) (co_live s) in
+      let e2 := if check_live ilive (co_shadow s) univ then [] else [(n, 2)] in
+      let e3 := if forallb (fun ip => optN_eqb (c_kmap st' ip) (ctl_table_entry (c_cache st') ip)) univ then [] else [(n, 3)] in
+      let e4 := if same_set dump_item_eqb (dump_of_cache (c_cache st')) (co_live s) then [] else [(n, 4)] in
+      let e5 := if lru_choice_ok cfg (c_cache st) (co_op s) (c_cache st') then [] else [(n, 5)] in
+      let e6 := if forallb (fun ip => optN_eqb (c_kmap st' ip)
+                                               (option_map snd (find (fun kv => fst kv =? ip) (co_shadow s)))) univ
+                then [] else [(n, 6)] in
+      e1 ++ e2 ++ e3 ++ e4 ++ e5 ++ e6 ++ check_ctl_steps cfg rest univ st' (n + 1)
+  end.
+
+Record ctl_case := {
+  cc_cfg : config;
+  cc_rules : N -> N;
+  cc_steps : list ctl_obs;
+  cc_universe : list N
+}.
+
+Definition check_ctl_glue (c : ctl_case) : list (N * N) :=
+  check_ctl_steps (cc_cfg c) (cc_steps c) (cc_universe c) (ctl_init (cc_rules c)) 0.
+
+(* coverage signature of a controller case (on the model run): #operations that issued an update call,
+   #operations that issued a remove call, #reloads, #steps after which two live entries of one base key
+   under different scopes list a common address *)
+Definition shares_scoped (c : cache) : bool :=
+  existsb (fun a => existsb (fun b =>
+      (k_base (fst a) =? k_base (fst b)) && negb (k_scope (fst a) =? k_scope (fst b))
+      && existsb (fun x => lists (ce_e (snd b)) (snd x) && lists (ce_e (snd a)) (snd x)) (e_answers (ce_e (snd a)))) c) c.
+
+Definition ctl_signature (c : ctl_case) : N * N * N * N :=
+  let fix go (steps : list ctl_obs) (st : ctl) (acc : N * N * N * N) : N * N * N * N :=
+      match steps with
+      | [] => acc
+      | s :: rest =>
+          let ef := ctl_effect (cc_cfg c) st (co_op s) in
+          let st' := ctl_step (cc_cfg c) st (co_op s) in
+          let '(u, d, r, sh) := acc in
+          let calls := snd (ef_work ef) in
+          let u' := if existsb (fun x => match x with CInsert _ _ => true | _ => false end) calls then u + 1 else u in
+          let d' := if existsb (fun x => match x with CRemove _ => true | _ => false end) calls then d + 1 else d in
+          let r' := if ef_new_generation ef then r + 1 else r in
+          let sh' := if shares_scoped (c_cache st') then sh + 1 else sh in
+          go rest st' (u', d', r', sh')
+      end in
+  go (cc_steps c) (ctl_init (cc_rules c)) (0, 0, 0, 0).
